@@ -71,9 +71,10 @@ func c03Real(tab uint32) *c03API {
 }
 
 type c03Env struct {
-	mk    func(uint32) *c03API
-	yield func()
-	out   strings.Builder
+	mk       func(uint32) *c03API
+	yield    func()
+	maxParts int // partitions per block (0: all listed)
+	out      strings.Builder
 }
 
 // c03Cfg is a decoder configuration plus blocks decoded (unsplit) before the
@@ -141,6 +142,9 @@ func (e *c03Env) one(cfg c03Cfg, blk []byte, cuts ...int) (pub, whitebox, text s
 // split records the single-Write run of blk and, for every listed partition,
 // the split run and whether it agrees with the single-Write run.
 func (e *c03Env) split(cfg c03Cfg, blk []byte, partitions ...[]int) {
+	if e.maxParts > 0 && len(partitions) > e.maxParts {
+		partitions = partitions[:e.maxParts]
+	}
 	base, baseWB, text := e.one(cfg, blk)
 	fmt.Fprintf(&e.out, "block %x whole: %s %s; ", blk, text, base)
 	for _, cuts := range partitions {
@@ -215,7 +219,7 @@ func c03Scripts(thorough bool) []c03Script {
 		}},
 		{"table size update 4096 cut inside its integer, then Huffman literals and a reference to the new entry", func(e *c03Env) {
 			blk := c03Cat(b(0x3f, 0xe1, 0x1f), b(0x40), c03H("custom-key"), c03H("custom-header"), b(0xbe), b(0x7e), c03H("v2"))
-			e.split(std, blk, cuts(1), cuts(2), cuts(13), cuts(len(blk)-4))
+			e.split(std, blk, cuts(1), cuts(13), cuts(2), cuts(len(blk)-4))
 		}},
 		{"EOS inside a Huffman string: rejected whole and cut inside the string", func(e *c03Env) {
 			blk := c03Cat(b(0x40), c03H("k1"), c03H("v1"), b(0x00), c03R("y"), b(0x84, 0xff, 0xff, 0xff, 0xff), b(0x82))
@@ -233,7 +237,7 @@ func c03Scripts(thorough bool) []c03Script {
 		}},
 		{"300-octet Huffman value with a three-octet length, cut inside the length and inside the data; table 100", func(e *c03Env) {
 			blk := c03Cat(b(0x40), c03H("long"), c03H(strings.Repeat("z", 300)), b(0x40), c03H("n"), c03H("v"), b(0xbe))
-			e.split(c03Cfg{tab: 100}, blk, cuts(6), cuts(7), cuts(150), cuts(len(blk)-5))
+			e.split(c03Cfg{tab: 100}, blk, cuts(6), cuts(150), cuts(7), cuts(len(blk)-5))
 		}},
 		{"SetMaxStringLength(6): a longer Huffman value, complete and cut before its end", func(e *c03Env) {
 			cfg := c03Cfg{tab: 4096, maxStr: 6}
@@ -264,7 +268,11 @@ func c03Ops(thorough bool) []vsched.Op {
 	var ops []vsched.Op
 	for _, s := range c03Scripts(thorough) {
 		s := s
-		ref := &c03Env{mk: c03Real, yield: func() {}}
+		maxParts := 2
+		if thorough {
+			maxParts = 0
+		}
+		ref := &c03Env{mk: c03Real, yield: func() {}, maxParts: maxParts}
 		s.run(ref)
 		if strings.Contains(ref.out.String(), "SPLIT-DIFFERS") {
 			// the sequential part of C03 judges this; here it would only blur the oracle
@@ -272,7 +280,7 @@ func c03Ops(thorough bool) []vsched.Op {
 		}
 		ops = append(ops, vsched.Op{Kind: "Decoder.Write", Name: s.name, Want: ref.out.String(),
 			Run: func() string {
-				e := &c03Env{mk: c03Inst, yield: vsched.Yield}
+				e := &c03Env{mk: c03Inst, yield: vsched.Yield, maxParts: maxParts}
 				s.run(e)
 				return e.out.String()
 			}})
@@ -280,9 +288,9 @@ func c03Ops(thorough bool) []vsched.Op {
 	return ops
 }
 
-// c03ColdIdx: this script is also run against itself from the package's
-// initial state (Huffman decoding tree not built), in the thorough tier.
-const c03ColdIdx = 0
+// c03ColdIdx: the pairs of these scripts are also explored from the
+// package's initial state (Huffman decoding tree not built, pool empty).
+var c03ColdIdx = []int{0, 3}
 
 // c03Warm puts the package into the state every call but the first sees:
 // Huffman decoding tree built, one buffer in the pool (exported API only;
@@ -297,7 +305,7 @@ func c03Warm() {
 func TestVerif_C03_globals(t *testing.T) {
 	vx.Run(t, "C03", func(c *vx.Ctx) {
 		bounds := vx.Pick(c, []int{1}, []int{1, 2})
-		c.Rule("concurrent part: for every unordered pair of scripts from a small alphabet (each script decodes one block — RFC 7541 C.3.1 / C.4.1 requests, a table size update followed by Huffman literals and a reference to the new entry, an EOS inside a Huffman string, an invalid index behind literals, a block truncated inside a Huffman value, a 300-octet Huffman value with a three-octet length, strings above SetMaxStringLength; thorough adds a C.6.1 response bytewise, a two-octet name index and an overflowing integer — on a fresh Decoder in one Write and on further fresh Decoders cut at 2-4 fixed partitions: inside integers, string lengths and Huffman data, with empty chunks) two threads run one script each (thorough: twice each) on the instrumented http2/hpack source, starting (programs warm/pair/…, all pairs) from the state after one Huffman decode and (thorough only: program pair/…, one script against itself, one call per thread) from the package's initial state; every schedule with at most B preemptions (quick B=1; thorough B=1 for every program, then B=2 as far as the budget reaches — the bound completed per program is recorded) at the scheduling points — before each statement mentioning a written package-level variable " + fmt.Sprint(zzWrittenGlobals) + ", sync.Once, sync.Pool Get/Put, and between any two Writes of a script — is executed; each script must produce its sequential transcript (byte counts, error types and texts, emitted fields, what dynamic indexes 62-64 resolve to afterwards) and every split run must agree with the script's own single-Write run on emitted fields, success/failure, the probes and the white-box dynamic table and saveBuf; chunks are cap==len copies overwritten after each Write")
+		c.Rule("concurrent part: for every unordered pair of scripts from a small alphabet (each script decodes one block — RFC 7541 C.3.1 / C.4.1 requests, a table size update followed by Huffman literals and a reference to the new entry, an EOS inside a Huffman string, an invalid index behind literals, a block truncated inside a Huffman value, a 300-octet Huffman value with a three-octet length, strings above SetMaxStringLength; thorough adds a C.6.1 response bytewise, a two-octet name index and an overflowing integer — on a fresh Decoder in one Write and on further fresh Decoders cut at fixed partitions (quick: the first 2 of each script's list, thorough: all 2-4): inside integers, string lengths and Huffman data, with empty chunks) two threads run one script each (thorough: twice each) on the instrumented http2/hpack source, starting (programs warm/pair/…, all pairs) from the state after one Huffman decode and (programs pair/…, the three pairs of two of the scripts) from the package's initial state (decoding tree not built, pool empty); every schedule with at most B preemptions (quick B=1; thorough B=1 for every program, then B=2 as far as the budget reaches — the bound completed per program is recorded) at the scheduling points — before each statement mentioning a written package-level variable " + fmt.Sprint(zzWrittenGlobals) + ", sync.Once, sync.Pool Get/Put, and between any two Writes of a script — is executed; each script must produce its sequential transcript (byte counts, error types and texts, emitted fields, what dynamic indexes 62-64 resolve to afterwards) and every split run must agree with the script's own single-Write run on emitted fields, success/failure, the probes and the white-box dynamic table and saveBuf; chunks are cap==len copies overwritten after each Write")
 		c.Assume("concurrent part: statement granularity at mentions of written package-level variables; accesses to heap objects only reachable from them (Huffman tree nodes, pooled buffers) and mutation through method calls are not scheduling points; sync.Pool is one shared LIFO free list; fixed partitions only (the sequential part enumerates partitions)")
 		seq := 0
 		if !c.Quick() {
@@ -310,10 +318,12 @@ func TestVerif_C03_globals(t *testing.T) {
 			p.Name = "warm/" + p.Name
 			progs = append(progs, p)
 		}
-		if !c.Quick() {
-			// first use (decoding tree not built yet): one program pair, last, one call per thread
-			progs = append(progs, vsched.PairPrograms("C03", zzResetGlobals, []vsched.Op{ops[c03ColdIdx]}, 0)...)
+		// first use (decoding tree not built yet, pool empty): the pairs of two scripts, last
+		var cold []vsched.Op
+		for _, i := range c03ColdIdx {
+			cold = append(cold, ops[i])
 		}
+		progs = append(progs, vsched.PairPrograms("C03", zzResetGlobals, cold, seq)...)
 		c.Note("globals_programs", len(progs))
 		c.Note("written_package_level_variables", zzWrittenGlobals)
 		vsched.RunBounds(c, "globals", progs, bounds)
